@@ -4,6 +4,9 @@ Modes (input "mode"):
   cases   : run cases; a case is a trace without observations
      lift : {id, ty, op, form, ka, kb, A, B, extra, pos}  -> adds A/B (evaluated operands as node arrays),
             tab (kernel on plain numbers for every pair of leaves) and O (evaluation of the composed object)
+     lazy : {id, ty, op, form, ops: [{k, n, sid, vals|v, src}], law, gen, how}
+            -> adds tab (kernel over every tuple of operand leaves, first operand fastest) and O (the outcome
+               of every next() of the traversal(s) of the composed object, until the end(s))
      range: {id, ty, fn, a: [{t, v}]}                      -> adds r, r2
      inv  : {id, ty, fn, k}                                -> adds r, rt
 No verdicts here: TLC (TraceOps.tla) decides.  Values are written as text ("i:3", "f:0x1.8p+1", "b:True",
@@ -426,6 +429,155 @@ def run_lift(bi, c):
     return out
 
 
+
+# ------------------------------------------------------------------ lazily evaluated compositions
+MARK = 424242
+END = {'x': 2, 's': 'end'}
+MAXCALLS = 60
+
+
+def make_lazy_operand(o, shared):
+    """operand object for one argument position; stream objects with the same sid are one object"""
+    k = o['k']
+    if k == 'num':
+        return num(o['v'])
+    if k in ('strm', 'rout'):
+        key = o['sid']
+        if key in shared:
+            return shared[key]
+        obj = make('strm', dict(vals=o['vals'], src='routine' if k == 'rout' else o.get('src', 'pseq')))
+        shared[key] = obj
+        return obj
+    if k == 'pat':
+        return make('pat', dict(vals=o['vals'], src=o.get('src', 'pseq')))
+    if k == 'fn':
+        return make('fn', dict(vals=o['vals'], nargs=1, src=o.get('src', '')))
+    raise AssertionError(k)
+
+
+def lazy_leaves(o):
+    """the evaluated operand alone: its leaf values"""
+    k = o['k']
+    if k == 'num':
+        return [num(o['v'])]
+    obj = make_lazy_operand(o, {})
+    if k == 'fn':
+        return [obj(*p) for p in POINTS]
+    from sc3.base.stream import stream
+    vals = []
+    for kind, v in drain(stream(obj)):
+        if kind == 'x':
+            raise RuntimeError('operand raised %r' % (v,))
+        vals.append(v)
+    return vals
+
+
+def outcome(v):
+    """one element of a traversal: a value, or (when it is a function) its values at the sample points"""
+    from sc3.base.functions import AbstractFunction
+    if isinstance(v, AbstractFunction):
+        c = []
+        for p in POINTS:
+            try:
+                c.append(val(v(*p)))
+            except Exception as ex:
+                c.append(exc(ex))
+        return {'v': {'x': 0, 's': 'fn'}, 'c': c}
+    if isinstance(v, int) and not isinstance(v, bool) and v == MARK:
+        return {'v': {'x': 3, 's': 'mark'}, 'c': []}
+    return {'v': val(v), 'c': []}
+
+
+def traversals(how, C):
+    """the objects whose next() is called, for an evaluation mode"""
+    from sc3.base.stream import stream, embed
+    from sc3.seq.patterns.listpatterns import Pseq
+    if how == 'stream':
+        return [stream(C)]
+    if how == 'embed':
+        return [embed(C)]
+    if how == 'nested':
+        return [stream(Pseq([C]))]
+    if how == 'nested2':
+        return [stream(Pseq([Pseq([C])]))]
+    if how == 'tail':
+        return [stream(Pseq([C, MARK]))]
+    if how == 'twice':
+        return [stream(Pseq([C], 2))]
+    if how == 'twice2':
+        return [stream(Pseq([C, C]))]
+    if how == 'inter':
+        return [stream(C), stream(C)]
+    if how == 'inter-nested':
+        p = Pseq([C])
+        return [stream(p), stream(p)]
+    raise AssertionError(how)
+
+
+def call_next(t):
+    from sc3.base.stream import Stream
+    if isinstance(t, Stream):
+        return t.next()
+    return next(t)          # a generator (embed)
+
+
+def run_lazy(bi, c):
+    from sc3.base.stream import StopStream
+    ops = c['ops']
+    leaves = [lazy_leaves(o) for o in ops]
+    dims = [len(l) for l in leaves]
+    K = kernel(bi, c['op'], c['form'])
+    total = 1
+    for d in dims:
+        total *= d
+    tab = []
+    for f in range(total):
+        ix = []
+        r = f
+        for d in dims:
+            ix.append(r % d)
+            r //= d
+        try:
+            tab.append(val(K(*[leaves[k][i] for k, i in enumerate(ix)])))
+        except Exception as ex:
+            tab.append(exc(ex))
+    O = []
+    try:
+        shared = {}
+        objs = [make_lazy_operand(o, shared) for o in ops]
+        cc = dict(op=c['op'], form=c['form'], ar=min(len(ops), 3), kb='lazy', pos=0)
+        if len(ops) == 1:
+            C = compose(bi, cc, objs[0], None, [])
+        elif len(ops) == 2:
+            C = compose(bi, cc, objs[0], objs[1], [])
+        else:
+            cc['kb'] = 'none'
+            C = compose(bi, cc, objs[0], None, objs[1:])
+        ts = traversals(c['how'], C)
+        alive = [True] * len(ts)
+        turn = 0
+        for _ in range(MAXCALLS):
+            if not any(alive):
+                break
+            if not alive[turn]:
+                turn = (turn + 1) % len(ts)
+            try:
+                O.append(outcome(call_next(ts[turn])))
+            except (StopStream, StopIteration):
+                O.append({'v': END, 'c': []})
+                alive[turn] = False
+            except Exception as ex:
+                O.append({'v': exc(ex), 'c': []})
+            turn = (turn + 1) % len(ts)
+        else:
+            O.append({'v': {'x': 0, 's': '...unbounded'}, 'c': []})
+    except Exception as ex:      # building the composition or the traversal failed
+        O = [{'v': exc(ex), 'c': []}]
+    return dict(id=c['id'], ty='lazy', op=c['op'], form=c['form'], how=c['how'],
+                ops=[dict(k=o['k'], n=dims[k], sid=o.get('sid', k + 1)) for k, o in enumerate(ops)],
+                law=c['law'], gen=bool(c['gen']), tab=tab, O=O)
+
+
 # ------------------------------------------------------------------ kernel laws
 def lat(a):
     return a['v'] // 8 if a['t'] == 'i' else a['v'] / 8.0
@@ -500,6 +652,8 @@ def main():
     for c in inp['cases']:
         if c['ty'] == 'lift':
             out.append(run_lift(bi, c))
+        elif c['ty'] == 'lazy':
+            out.append(run_lazy(bi, c))
         elif c['ty'] == 'range':
             out.append(run_range(bi, c))
         else:
